@@ -122,6 +122,27 @@ def machine_conformance(c, fams):
     return n, sum(1 for e in edges if e["pre"] != e["post"] or any(e["obs"][k] for k in e["obs"]))
 
 
+def table_half(c, thorough):
+    """What 'marked stale', 'purged at End-of-RIB / at timer expiry' and 'LLGR-stale' mean for the table itself, with ADD-PATH:
+    focused behaviours of Rib.tla (insert / remove / mark / purge only; a peer with two path ids per prefix that restarts on a
+    new session and re-announces part of what it had) on the real Table; the path set must be the model's after every step."""
+    import riblib
+    from riblib import Cfg
+    cfgs = [Cfg("g1", ["p1", "p2"], ["a1", "a2", "b1"], {"A": [0, 1], "B": [0]}, ["c1", "c3"], ["n1", "n2"], filt=(False, True),
+                ops=["insert", "remove", "markstale", "dropstale"]),
+            Cfg("g2", ["p1", "p2"], ["a1", "a2", "b1"], {"A": [0, 1], "B": [0]}, ["c1", "cL", "cN"], ["n1"], filt=(False, True),
+                ops=["insert", "remove", "markstale", "dropstale", "markllgr", "dropllgr"])]
+    n = 1500 if thorough else 300
+    steps = 0
+    for i, cfg in enumerate(cfgs):
+        walks = riblib.gen_walks(cfg, n, 40, c.seed * 100 + 41 + i)
+        st, distinct, seen = riblib.replay_walks(c, "C10", cfg, walks, kinds=("state.ent", "state.flags", "panic"))
+        steps += st
+        c.cov["parts"]["table-" + cfg.name] = {"walks": len(walks), "steps_replayed": st, "divergence_kinds_seen": seen}
+        c.cov["traces_validated_against_impl"] += len(walks)
+    c.cov["evaluations"] += steps
+
+
 def main(c):
     thorough = c.tier == "thorough"
     designs = [("q", ["v4", "v6"], [1], ALL_REASONS)]
@@ -147,3 +168,4 @@ def main(c):
                       "senders in PeerContext; expiry is injected through those senders (restart/stale times are hours)"]
     import drvlib
     drvlib.gr_glue(c)
+    table_half(c, thorough)
